@@ -2,11 +2,13 @@
 from . import core_targets as K
 
 LEVEL = 'proof'
-TAGS = ('C01', 'tree', 'wf')
+TAGS = ('C01', 'tree', 'wf', 'idle')
 TRUSTED = ['abstract handler contract = definition of a well-formed chart (DESIGN 5.2)',
            'induction over depth as proof principle for the tree lemmas (each lemma is a discharged obligation)',
            'list contract (append, index, store)', 'Event.__init__ contract (proved under C25)']
-ASSUMPTIONS = ['state functions obey the handler contract (that is the input domain of the property)']
+ASSUMPTIONS = ['Inv_idle (temp.fun == state.fun between public calls) is what every operation assumes; its '
+               'preservation by start_at, dispatch, is_in and child_state is checked here too (tag idle)',
+               'state functions obey the handler contract (that is the input domain of the property)']
 EXPLANATION = ('dispatch and trans_ of the real source are executed symbolically over an uninterpreted finite tree; '
                'every handler call is checked against the UML monitor; trans_ is verified against a contract whose '
                'postcondition is the property\'s own definition of the least common ancestor; dispatch is verified '
@@ -16,4 +18,4 @@ MIN_OBLIGATIONS = 100
 
 def build(src, tier):
     w = K.world_for(src, tier)
-    return [(w, [K.t_tree_lemmas(), K.t_trans_(), K.t_dispatch()])]
+    return [(w, [K.t_tree_lemmas(), K.t_trans_(), K.t_dispatch(), K.t_is_in(), K.t_child_state(), K.t_start_at()])]
